@@ -19,6 +19,19 @@ def ev(kind, idx, name, file='-', ans='', text=None, flag=False, mtime=0, imp=()
             'flag': bool(flag), 'mtime': int(mtime), 'imp': list(imp), 'mods': list(mods)}
 
 
+class Runaway(BaseException):
+    """More component calls than any terminating run of the explored scenarios can make: the run is cut off."""
+
+
+class CappedLog(list):
+    CAP = 400
+
+    def append(self, x):
+        if len(self) >= self.CAP:
+            raise Runaway()
+        list.append(self, x)
+
+
 class Text(object):
     """Opaque text identity minted by a double (code generator / borrower / source)."""
 
@@ -40,7 +53,7 @@ class World(object):
     def __init__(self, script, nsrc, nsea, nbor, flavs):
         self.script = script
         self.nsrc, self.nsea, self.nbor, self.flavs = nsrc, nsea, nbor, list(flavs)
-        self.log = []
+        self.log = CappedLog()
         self.unscripted = 0
         self.nfail = 0
         self.salt = 0
@@ -257,10 +270,13 @@ def run_scenario(sc, nsrc, nsea, nbor, const_imp=(), salt=0):
                     vid = ['src', err.source.idx, getattr(err, 'mibname', '?')]
                 vid = vid or ['other', 0, type(err).__name__]
             proc.append({'name': name, 'st': str(st), 'err': list(vid)})
+    except Runaway:
+        ended, exc_cls = 'runaway', 'cut off after %d component calls' % len(w.log)
+        w.log = list(w.log[:60])
     except Exception as exc:  # the property says compile() must not raise for package errors
         ended, exc_cls = 'raise', type(exc).__name__
     return {'req': list(sc['req']), 'opts': opts, 'flavs': flavs, 'nsrc': nsrc, 'nsea': nsea, 'nbor': nbor,
-            'log': w.log, 'proc': proc, 'ended': ended, 'exc': exc_cls, 'unscripted': w.unscripted}
+            'log': list(w.log), 'proc': proc, 'ended': ended, 'exc': exc_cls, 'unscripted': w.unscripted}
 
 
 def observed_env(tr):
